@@ -256,6 +256,17 @@ pub fn run(tier: Tier) -> ! {
             chk.violation(format!("{k} words={w:?}"), what, json!({"kind": "cli", "label": format!("{w:?}"), "dict": dict}));
         }
     });
+    // long hostile words (300 characters) and a long comment
+    for (i, unit) in ["a,", "\"あ", " \n", "#\r"].iter().enumerate() {
+        let w: String = unit.repeat(150);
+        let mut d = mk(i, &w);
+        d.comment = "c,\"\n".repeat(100);
+        chk.eval(1);
+        chk.nontrivial(1);
+        if let Some((k, what)) = check_cli(&[d.clone()], &format!("long{i}")) {
+            chk.violation(format!("{k} words=long{i}"), what, json!({"kind": "cli", "label": format!("long{i}"), "dict": [d]}));
+        }
+    }
     // all hostile words together in one dictionary, and the empty dictionary
     for (tag, dict) in [("all", hostile.iter().enumerate().map(|(i, w)| mk(i, w)).collect::<Vec<_>>()), ("none", vec![])] {
         chk.eval(1);
